@@ -77,10 +77,29 @@ def lex_facts(inst):
     return {"lower": lower or {"_": "_"}, "stripped": stripped or {"_": "_"}, "hascomma": hascomma or {"_": False}}
 
 
+def typedef_of_non_template(tree):
+    """a typedef whose target names a class declared WITHOUT template parameters: outside the dialect
+    (Instantiate.tla: 'undefined / typedef-of-non-template'), nothing downstream is judged"""
+    plain, targets = set(), []
+
+    def walk(items):
+        for d in items:
+            if d["k"] == "namespace":
+                walk(d["items"])
+            elif d["k"] == "class" and not d["tmpl"]:
+                plain.add(d["name"])
+            elif d["k"] == "typedef":
+                targets.append(d["t"]["qn"][-1])
+    walk(tree)
+    return any(t in plain for t in targets)
+
+
 def observe(text, top=("",), ignore=(), ser=False, module_name="mod", submodules=None, xml=""):
     """-> dict(outcome=..., inst=..., scan=...)"""
     try:
         m = parser.Module.parseString(text)
+        if typedef_of_non_template(proj.proj_tree(m)):
+            return {"outcome": "not-judged:typedef-of-non-template"}
         m = instantiator.instantiate_namespace(m)
         proj.SPELL = []
         try:
